@@ -37,8 +37,9 @@ def check(run):
     _query_dependence(run, P)
     # the inverse-distance result is a float-weighted sum: it must not be squeezed into the source data's dtype (nearest neighbour keeps the dtype by construction)
     from ..rules import dtype as _dt
-    _dt.check_float_results(run, P, [f"{IDW}:_inverse_distance_weighted_remap"])
+    _dt.check_float_results(run, P, [f"{IDW}:_inverse_distance_weighted_remap", f"{IDW}:_inverse_distance_weighted_remap_uxda", f"{IDW}:_inverse_distance_weighted_remap_uxds"])
     _results(run, P)
+    _accessors_pass_through(run, P)
 
 
 def _kind(run, P):
@@ -539,3 +540,63 @@ def _results(run, P):
             run.holds("IDX/remap-result", c, where(g, cons[0]), "dataset attached to the destination grid")
         else:
             run.violation("IDX/remap-result", c, where(g), "remapped dataset is not attached to the destination grid")
+
+
+def _accessors_pass_through(run, P):
+    """Every value returned by the four remap accessor methods is the result of the remap implementation of that method.  A shortcut that returns something else
+    is decided by its guard: `destination_grid is <source grid>` is the identity case the property itself names; a guard that compares the two grids with ==/!= is
+    NOT (Grid.__eq__ looks at node coordinates and face-node connectivity only: two grids that compare equal may number their edges differently or carry different
+    stored centres, so element j of one is not element j of the other); anything else is not understood."""
+    from ..flow import enumerate_paths
+    table = [
+        ("uxarray/remap/dataarray_accessor.py:UxDataArrayRemapAccessor.nearest_neighbor", "_nearest_neighbor_uxda"),
+        ("uxarray/remap/dataarray_accessor.py:UxDataArrayRemapAccessor.inverse_distance_weighted", "_inverse_distance_weighted_remap_uxda"),
+        ("uxarray/remap/dataset_accessor.py:UxDatasetRemapAccessor.nearest_neighbor", "_nearest_neighbor_uxds"),
+        ("uxarray/remap/dataset_accessor.py:UxDatasetRemapAccessor.inverse_distance_weighted", "_inverse_distance_weighted_remap_uxds"),
+    ]
+    for key, impl in table:
+        f = P.func(key)
+        defs = LocalDefs(f.node)
+        c = f"{f.key}:returns-the-remap"
+        rets = [r for r in ast.walk(f.node) if isinstance(r, ast.Return)]
+        bad = []
+        for r in rets:
+            nodes, _ = defs.closure(r.value) if r.value is not None else ([], set())
+            if any(isinstance(n, ast.Call) and (dotted(n.func) or [""])[-1] == impl for e in nodes for n in ast.walk(e)):
+                continue
+            bad.append(r)
+        if not rets:
+            run.incomplete("F-PATH/remap-pass-through", c, where(f), "no return statement")
+            continue
+        if not bad:
+            run.holds("F-PATH/remap-pass-through", c, where(f), f"all {len(rets)} return(s) hand back {impl}(...)")
+            continue
+        for r in bad:
+            # the guards under which this return is reached
+            guards = []
+            for p_ in enumerate_paths(f.node.body):
+                if p_.exit == "return" and p_.events and any(r is e or any(r is x for x in ast.walk(e)) for e in p_.events[-1:]):
+                    guards = [t for t, _truth in getattr(p_, "conds", [])]
+                    break
+            if not guards:
+                # fall back: the tests of the enclosing ifs
+                def enclosing(stmts, acc):
+                    for st in stmts:
+                        if st is r:
+                            return acc
+                        if isinstance(st, ast.If):
+                            got = enclosing(st.body, acc + [st.test]) or enclosing(st.orelse, acc + [st.test])
+                            if got is not None:
+                                return got
+                    return None
+                guards = enclosing(f.node.body, []) or []
+            cmps = [n for g in guards for n in ast.walk(g) if isinstance(n, ast.Compare) and len(n.ops) == 1 and any("grid" in norm(x).lower() for x in (n.left, n.comparators[0]))]
+            if any(isinstance(n.ops[0], (ast.Eq, ast.NotEq)) for n in cmps):
+                run.violation("F-PATH/remap-pass-through", c, where(f, r),
+                              f"a shortcut returns {norm(r.value)[:50] if r.value is not None else None} without remapping when the two grids compare EQUAL: Grid.__eq__ ignores edge numbering and stored "
+                              "edge/face centres, so the j-th source element need not be the element nearest to the j-th destination element")
+            elif cmps and all(isinstance(n.ops[0], (ast.Is, ast.IsNot)) for n in cmps):
+                run.holds("F-PATH/remap-pass-through", c, where(f, r), "identity shortcut for the very same Grid object")
+            else:
+                run.incomplete("F-PATH/remap-pass-through", c, where(f, r), f"a return that does not come from {impl}(...) under a guard this rule does not evaluate")
+
